@@ -22,11 +22,15 @@ class Stats:
         self.fail_calls = 0
         self.stop_shrinking = False
         self.shrink_limit = 400
+        self.shrink_seconds = 90
+        self.first_fail_time = None
         self.survey = bool(os.environ.get('VERIF_SURVEY'))
         self.buckets = {}
 
     def run_case(self, case, exhaustive=False):
         """Run one case. Raises AssertionError on an unlisted violation."""
+        if self.first_fail_time is not None and time.time() - self.first_fail_time > self.shrink_seconds:
+            self.stop_shrinking = True
         if self.stop_shrinking:
             return
         ctx = Ctx()
@@ -57,7 +61,10 @@ class Stats:
             sub = unknown[0].detail.pop('subcase', None)
             self.failure = (sub if sub is not None else case, [v.to_json() for v in unknown])
             self.fail_calls += 1
-            if self.fail_calls > self.shrink_limit:
+            if self.first_fail_time is None:
+                self.first_fail_time = time.time()
+            # the shrink phase is bounded (calls and seconds): this only limits how small the replay gets
+            if self.fail_calls > self.shrink_limit or time.time() - self.first_fail_time > self.shrink_seconds:
                 self.stop_shrinking = True
             raise AssertionError(unknown[0].kind + ': ' + unknown[0].msg)
         if self.failure is not None:
@@ -104,6 +111,7 @@ def run_shard(prop_id, tier, seed, shard, nshards, outfile):
             strat = prop.strategy(tier)
             phases = [Phase.generate, Phase.shrink] if budget.get('shrink', True) else [Phase.generate]
             stats.shrink_limit = budget.get('shrink_calls', 400)
+            stats.shrink_seconds = budget.get('shrink_seconds', 90 if tier == 'quick' else 300)
 
             @hypothesis.seed(derive_seed(seed, shard))
             @settings(max_examples=n, database=None, deadline=None, derandomize=False,
